@@ -83,6 +83,19 @@ func opRace(p []string) string {
 				j.kind = "M"
 			}
 			j.data = b
+			// a third of the inputs are corrupted in one letter (unknown struct field / union member / string content):
+			// rejection paths run concurrently too
+			if r.chance(1, 3) && len(b) > 0 {
+				c := append([]byte{}, b...)
+				for try := 0; try < 8; try++ {
+					k := r.intn(len(c))
+					if c[k] >= 'a' && c[k] <= 'y' {
+						c[k]++
+						break
+					}
+				}
+				j.data = c
+			}
 		}
 		jobs = append(jobs, j)
 	}
@@ -91,7 +104,13 @@ func opRace(p []string) string {
 	for i, j := range jobs {
 		want[i] = runJob(j, atlasByID(strconv.Itoa(j.aid)))
 	}
-	// concurrent: every worker runs every job (sharing atlases and inputs), in a worker-specific order
+	// concurrent: every worker runs every job (sharing atlases and inputs), in a worker-specific order; the atlases
+	// are freshly built for this phase, so that the workers are the first ever to use them (lazily initialised or
+	// first-use-mutated shared state would be touched concurrently)
+	fresh := map[int]*atlasCfg{}
+	for _, a := range freshAtlases() {
+		fresh[a.id] = a
+	}
 	got := make([][]string, workers)
 	var wg sync.WaitGroup
 	for w := 0; w < workers; w++ {
@@ -101,7 +120,7 @@ func opRace(p []string) string {
 			res := make([]string, len(jobs))
 			for k := range jobs {
 				i := (k*7 + w*13) % len(jobs)
-				res[i] = runJob(jobs[i], atlasByID(strconv.Itoa(jobs[i].aid)))
+				res[i] = runJob(jobs[i], fresh[jobs[i].aid])
 				if k%16 == 0 {
 					runtime.Gosched()
 				}
